@@ -467,6 +467,32 @@ Definition eab_spec (conf : bool) (recs : list eab_rec) : bool :=
              if (has : bool) then conf && creating && Nat.eqb url_ca c && good
              else negb (conf && creating && Nat.eqb c 0)) recs.
 
+(** what the model predicts for such a record: only account-creating newAccount requests ([Register]
+    operations) are recorded at all — nothing else carries a binding —, they carry one iff an
+    external account is configured, and then it names the directory in use and is well-formed *)
+Definition eab_predicted (conf : bool) (r : eab_rec) : bool :=
+  let '(c, creating, has, url_ca, good) := r in
+  (creating : bool) && Bool.eqb has conf && (negb conf || (Nat.eqb url_ca c && good)).
+
+(** (h) only accountDoesNotExist recreates: a Delete of deleteAccountLocally by a thread comes after
+    that thread's own order was answered accountDoesNotExist by the CA (an observed, not injected,
+    answer), with no other order of that thread in between. [gone t]: the thread's latest order was
+    answered so; [last t]: kind and fault of its previous operation (to tell storeTx's rollback). *)
+Fixpoint spec_gone (gone : tid -> bool) (last : tid -> nat * bool) (evs : list event) : bool :=
+  match evs with
+  | [] => true
+  | EStart t _ :: r => spec_gone (upd gone t false) (upd last t (0, false)) r
+  | ECrash t :: r => spec_gone gone (upd last t (0, false)) r
+  | EReset _ :: r => spec_gone gone last r
+  | EOp t f k kc v :: r =>
+      let '(lk, lf) := last t in
+      let rollback := Nat.eqb k k_delreg && Nat.eqb lk k_storekey && lf in
+      let recreate_del := (Nat.eqb k k_delreg || Nat.eqb k k_delkey) && negb rollback in
+      let gone' := if Nat.eqb k k_order then upd gone t (negb f && Nat.eqb v 1) else gone in
+      (negb recreate_del || gone t) && spec_gone gone' (upd last t (k, f)) r
+  end.
+Definition spec_gone0 (evs : list event) : bool := spec_gone (fun _ => false) (fun _ => (0, false)) evs.
+
 Inductive case :=
 | CHist (evs : list event) (f : final) (eab_conf : bool) (eab : list eab_rec)
 | CUrl (u : url_case) (obs : option str)
@@ -500,9 +526,9 @@ Definition get_case : dec case :=
 
 Definition model_agrees (c : case) : bool :=
   match c with
-  | CHist evs f _ _ =>
+  | CHist evs f conf recs =>
       match replay init evs with
-      | Some (s, b) => b && final_agree s f
+      | Some (s, b) => b && final_agree s f && forallb (eab_predicted conf) recs
       | None => false
       end
   | CUrl u obs => opt_str_eqb (url_model u) obs
@@ -518,7 +544,7 @@ Definition model_agrees (c : case) : bool :=
 
 Definition spec_ok (c : case) : bool :=
   match c with
-  | CHist evs f conf recs => spec_hist evs f && eab_spec conf recs
+  | CHist evs f conf recs => spec_hist evs f && eab_spec conf recs && spec_gone0 evs
   | CUrl u obs => url_spec u obs
   | CContact u cs => contact_spec cs
   | CKeyPem _ _ _ _ _ _ _ cr => Nat.eqb cr 0     (* a configured key never registers an account *)
